@@ -221,7 +221,7 @@ func (channel *Channel) handleMethod(method amqp.Method) *amqp.Error {
 		return channel.confirmRoute(method)
 	}
 
-	return nil
+	return amqp.NewConnectionError(amqp.NotImplemented, "unable to route method "+method.Name(), method.ClassIdentifier(), method.MethodIdentifier())
 }
 
 func (channel *Channel) handleContentHeader(headerFrame *amqp.Frame) *amqp.Error {
